@@ -985,6 +985,9 @@ macro_rules! for_each_subject {
         $m!(std::ops::Range<u8>); $m!(std::ops::RangeFrom<i16>); $m!(std::ops::RangeTo<u32>);
         $m!(std::ops::RangeToInclusive<i64>); $m!(std::ops::RangeInclusive<u64>);
         $m!(std::ops::Bound<u16>); $m!(std::ops::Bound<String>);
+        // struct-like built-ins whose fields can hold null
+        $m!(std::ops::Range<Option<u8>>); $m!(std::ops::RangeInclusive<Option<i16>>); $m!(std::ops::RangeFrom<Option<bool>>); $m!(std::ops::RangeTo<Option<u8>>);
+        $m!(std::ops::Bound<Option<u8>>); $m!(Result<Option<u8>, Option<bool>>);
         $m!(std::time::Duration); $m!(std::time::SystemTime); $m!(Option<std::time::Duration>); $m!(Vec<std::time::Duration>);
         $m!(std::net::IpAddr); $m!(std::net::Ipv4Addr); $m!(std::net::Ipv6Addr);
         $m!(std::net::SocketAddr); $m!(std::net::SocketAddrV4); $m!(std::net::SocketAddrV6);
@@ -998,5 +1001,8 @@ macro_rules! for_each_subject {
         $m!(minicbor::data::Int); $m!(minicbor::data::Tag);
         $m!(minicbor::data::Tagged<7, u8>); $m!(minicbor::data::Tagged<55799, String>); $m!(minicbor::data::Tagged<{ u64::MAX }, Vec<u8>>);
         $m!(minicbor::data::Tagged<24, minicbor::data::Tagged<0, Option<i32>>>);
+        // nil-capable values behind wrappers that are not nil themselves, inside an Option
+        $m!(Option<minicbor::data::Tagged<7, Option<u8>>>); $m!(minicbor::data::Tagged<3, Option<String>>); $m!(Vec<minicbor::data::Tagged<1, Option<u8>>>);
+        $m!(Option<(Option<u8>,)>); $m!(Option<[Option<u8>; 1]>); $m!(Option<Vec<Option<bool>>>);
     };
 }
